@@ -238,6 +238,25 @@ def x_event_types():
     return ("REGISTER event type names (Display impls)", [rel], res)
 
 
+def x_decompress_guards():
+    """The size guards of `frame::decompress`: `uncomp_len > comp_body.len().saturating_mul(M).saturating_add(A)`
+    in the LZ4 arm and in the Snappy arm (in that order)."""
+    rel = "scylla-cql/src/frame/mod.rs"
+    src = strip_comments(read(rel))
+    body = block_after(src, r"\bpub\s+fn\s+decompress\s*\(", rel)
+    i_lz4 = body.find("Compression::Lz4")
+    i_snap = body.find("Compression::Snappy")
+    if i_lz4 < 0 or i_snap < 0 or i_snap < i_lz4:
+        raise ExtractError("%s: decompress: expected a `Compression::Lz4` arm followed by a `Compression::Snappy` arm" % rel)
+    pat = r"if\s+uncomp_len\s*>\s*comp_body\s*\.len\(\)\s*\.saturating_mul\(([0-9A-Za-z_x]+)\)\s*\.saturating_add\(([0-9A-Za-z_x]+)\)\s*\{"
+    lm, la = one(rel, pat, "LZ4 size guard of decompress", body[i_lz4:i_snap])
+    sm, sa = one(rel, pat, "Snappy size guard of decompress", body[i_snap:])
+    vals = [("lz4_mul", parse_int(lm, rel)), ("lz4_add", parse_int(la, rel)),
+            ("snappy_mul", parse_int(sm, rel)), ("snappy_add", parse_int(sa, rel))]
+    return ("size guards of frame::decompress (declared size > len * mul + add is rejected before decoding)", [rel],
+            nat_defs("decompressGuard", vals))
+
+
 EXTRACTORS = [
     x_request_opcodes,
     x_response_opcodes,
@@ -248,6 +267,7 @@ EXTRACTORS = [
     x_consistency,
     x_value_markers,
     x_event_types,
+    x_decompress_guards,
 ]
 
 
